@@ -1,6 +1,6 @@
 (* Facts about the first-appearance lists of Model/TTable.v. *)
 From Coq Require Import String Ascii List Bool Arith Lia.
-From KV Require Import Lib.TableDef Model.TTable.
+From KV Require Import Lib.TableDef Gen.TTModelSrc Model.TTable.
 Import ListNotations.
 Open Scope string_scope.
 
@@ -29,3 +29,13 @@ Proof.
   - intro H. apply In_filter_neq in H as [_ H]. congruence.
   - apply NoDup_filter. exact IH.
 Qed.
+
+(* What smgen's table model does NOW (Gen/TTModelSrc.v is regenerated from its source on every run): this
+   equation stops compiling if transitionsperstate stops listing the states without outgoing rows -- and with it every
+   proof of C08, C09 and C10 that uses it (the signature key, which C08 does not depend on: Proofs/TTableSigProofs.v). *)
+Lemma tps_states_all : forall t,
+  tps_states t = (src_states t ++ filter (fun s => negb (mem s (src_states t))) (states t))%list.
+Proof. reflexivity. Qed.
+
+Lemma tt_model_insertion_ordered : tt_containers_insertion_ordered = true.
+Proof. reflexivity. Qed.
